@@ -7,6 +7,13 @@ class SameID:
       # the identifier is in use by a line which is not a group of the same kind
       return super()._process_not_unique(previous)
     self._check_tags_of_previous_group_definition(previous)
+    for item in self.get("items"):
+      # (as for a group defined on a single line)
+      if (item.name if isinstance(item, gfapy.OrientedLine) else item) == \
+          self.name:
+        raise gfapy.NotUniqueError(
+          "Line: {}\n".format(str(self))+
+          "The line refers to its own identifier")
     self._gfa = previous.gfa
     self._initialize_references()
     cur_items = self.get("items")
